@@ -275,7 +275,12 @@ fn case<const PW: u8, const G: i8>(g: &str, reg: Reg, front: Front, rng: &mut Pr
             }
             c.extend(link_adr_req(15, 15, 1 << ch, 0, 1));
         }
-        vec![Step::Mac(c, false), Step::Send]
+        if !reg.fixed() && (ch as usize) >= reg.default_channels().len() {
+            // ... and then the network tries to delete that last channel
+            vec![Step::Mac(c, false), Step::Send, Step::Mac(new_channel_req(ch, 0, 0x50), rng.bool()), Step::Send]
+        } else {
+            vec![Step::Mac(c, false), Step::Send]
+        }
     } else {
         gen_history(reg, rng)
     };
